@@ -70,7 +70,12 @@ def gen_case(rng):
         t, p = render_group(g, True, mark), render_group(g, False, mark)
         if ctx < 0.6: parts_t.append(t); parts_p.append(p)
         elif ctx < 0.75: parts_t.append("[2 %s n100]" % t); parts_p.append("[2 %s n100]" % p)
-        elif ctx < 0.85: parts_t.append("Sub{%s n40} r" % t); parts_p.append("Sub{%s n40} r" % p)
+        elif ctx < 0.82: parts_t.append("Sub{%s n40} r" % t); parts_p.append("Sub{%s n40} r" % p)
+        elif ctx < 0.9 and " " in t:
+            # a group that begins on the last note of a tuplet (or Sub block) and ends after it
+            w = rng.choice(["{r %s}4 %s", "Div{r8 %s}2 %s", "{%s}8 %s", "Sub{r %s} %s"])
+            t1, t2 = t.split(" ", 1); p1, p2 = p.split(" ", 1)
+            parts_t.append(w % (t1, t2)); parts_p.append(w % (p1, p2))
         else: parts_t.append("{%s n41}2" % t); parts_p.append("{%s n41}2" % p)
         both(rng.choice(["n100", "n100 r", "n100,8 d"]))      # the group is closed by the next note (sentinel)
     changes = sum(1 for g in groups for a, b in zip(g[0], g[0][1:]) if a != b)
